@@ -51,9 +51,10 @@ func c17File(layout int, today ref.Date, h12 bool, indent string) string {
 	d := func(n int) string { return ref.FormatDate(today.Plus(n), true) }
 	var sb strings.Builder
 	sb.WriteString(d(-9) + "\n" + indent + tm(480) + " - " + tm(600) + " older\n" + indent + "1h\n\n")
-	yOpen := d(-1) + "\n" + indent + tm(420) + " - " + tm(480) + " early\n" + indent + tm(1200) + " - ? night shift #late\n\n"
+	// (the open range is not always the record's last entry: something tracked later stands behind it)
+	yOpen := d(-1) + "\n" + indent + tm(420) + " - " + tm(480) + " early\n" + indent + tm(1200) + " - ? night shift #late\n" + indent + tm(600) + " - " + tm(615) + " tracked afterwards\n\n"
 	yClosed := d(-1) + "\n" + indent + tm(420) + " - " + tm(480) + " early\n\n"
-	tOpen := d(0) + "\nsummary of today\n" + indent + tm(5) + " - ? since midnight #t\n"
+	tOpen := d(0) + "\nsummary of today\n" + indent + tm(5) + " - ? since midnight #t\n" + indent + tm(1) + " - " + tm(3) + " tracked afterwards\n" + indent + "-2m\n"
 	tClosed := d(0) + "\n" + indent + tm(5) + " - " + tm(6) + " done\n"
 	switch layout {
 	case 0:
@@ -326,6 +327,40 @@ func c17Now(e *core.Env, r *core.Rand, file string, today ref.Date, minute, layo
 	}
 	clock := MEnv{Today: today, Minute: minute, Second: 30}.Clock()
 	w := map[string]any{"file": text, "clock": clock.Format("2006-01-02T15:04:05"), "layout": layout}
+	// `total --now --today`: the filter selects first, --now applies to what is selected - an open range that cannot be
+	// closed in a record the filter leaves out is no obstacle
+	{
+		sel := &ref.Doc{}
+		for i := range rec.Doc.Recs {
+			if rec.Doc.Recs[i].Date == today {
+				sel.Recs = append(sel.Recs, rec.Doc.Recs[i])
+			}
+		}
+		fextra, _, fok := nowClosing(sel, today, minute)
+		fres := runRO(e, &cli.Total{NowArgs: util.NowArgs{Now: true}, FilterArgs: util.FilterArgs{Today: true}, DecimalArgs: util.DecimalArgs{Decimal: true}, WarnArgs: util.WarnArgs{NoWarn: true},
+			NoStyleArgs: util.NoStyleArgs{NoStyle: true}, InputFilesArgs: util.InputFilesArgs{File: files(file)}}, 1, "", "", clock)
+		switch {
+		case fres.Panic != nil:
+			e.Violation("now-panic: "+fres.Panic.Site(), fres.Panic.Value, w)
+			return
+		case !fok && fres.Err == nil:
+			e.Violation("now-uncloseable-range-not-refused", fmt.Sprintf("`klog total --now --today` at %s must refuse\n%s", w["clock"], fres.Out), w)
+			return
+		case fok && fres.Err != nil:
+			e.Violation("now-fails", fmt.Sprintf("`klog total --now --today` at %s failed (%s) although every open range among today's records can be closed", w["clock"], fres.Err.Details()), w)
+			return
+		case fok:
+			fwant := 0
+			for i := range sel.Recs {
+				fwant += sel.Recs[i].Total() + fextra[i]
+			}
+			if to, perr := parseTotalOutput(fres.Out); len(sel.Recs) > 0 && (perr != nil || to.Total != strconv.Itoa(fwant)) {
+				e.Violation("now-total-wrong", fmt.Sprintf("`klog total --now --today` at %s = %s, expected %d", w["clock"], to.Total, fwant), w)
+				return
+			}
+			e.Count("now_cells_with_filter_evaluated", 1)
+		}
+	}
 	extra, _, ok := nowClosing(rec.Doc, today, minute)
 	res := runRO(e, &cli.Total{NowArgs: util.NowArgs{Now: true}, DecimalArgs: util.DecimalArgs{Decimal: true}, WarnArgs: util.WarnArgs{NoWarn: true}, NoStyleArgs: util.NoStyleArgs{NoStyle: true},
 		InputFilesArgs: util.InputFilesArgs{File: files(file)}}, 1, "", "", clock)
